@@ -16,6 +16,10 @@ fn world() -> &'static World {
 }
 
 fn check(case: &Case, obs: &mut Obs) -> CheckResult {
+    p_stack::dev_filter(check_inner(case, obs))
+}
+
+fn check_inner(case: &Case, obs: &mut Obs) -> CheckResult {
     let s = sim::run(world(), case, Focus::C06, obs)?;
     let c = &case.cfg;
     if !c.valid() {
@@ -143,10 +147,10 @@ fn starvation_prefix(cfg: Cfg) -> impl Strategy<Value = Vec<Op>> {
 
 fn case_strategy(max_ops: usize) -> impl Strategy<Value = Case> {
     cfg_strategy().prop_flat_map(move |cfg| {
-        let tail = gens::ops_strategy(cfg, max_ops, 6, [20, 35, 8, 30, 7], 10_000);
+        let tail = || gens::ops_strategy(cfg, max_ops, 6, [20, 35, 8, 30, 7], 10_000);
         prop_oneof![
-            3 => tail.clone().prop_map(move |ops| Case { cfg, policies: vec![], ops }),
-            1 => (starvation_prefix(cfg), tail).prop_map(move |(mut pre, t)| {
+            3 => tail().prop_map(move |ops| Case { cfg, policies: vec![], ops }),
+            1 => (starvation_prefix(cfg), tail()).prop_map(move |(mut pre, t)| {
                 pre.extend(t.into_iter().take(max_ops.saturating_sub(pre.len())));
                 Case { cfg, policies: vec![], ops: pre }
             }),
@@ -217,7 +221,7 @@ fn run_exhaustive(ctx: &Ctx) {
 
 fn post(ctx: &Ctx) {
     ctx.require_label("nontrivial", ctx.tier.pick(800, 80_000));
-    ctx.require_label("time-crossed-active-expiry", 300);
+    ctx.require_label("time-crossed-active-expiry", 100);
     ctx.require_label("fetch-failures>=3-in-a-row", 150);
     ctx.require_label("issue-reports>=2x-cache", 150);
     ctx.require_label("config-corner:min_delay==threshold", 100);
@@ -228,12 +232,12 @@ fn post(ctx: &Ctx) {
 
 fn main() {
     let subs = [
-        Sub { name: "histories-random", run: run_random, replay: |c, v| c.replay_case::<Case>("histories-random", v, check) },
-        Sub { name: "histories-exhaustive-len1", run: run_exhaustive, replay: |c, v| c.replay_case::<Case>("histories-exhaustive", v, check) },
-        Sub { name: "histories-exhaustive-len2", run: |_| {}, replay: |c, v| c.replay_case::<Case>("histories-exhaustive", v, check) },
-        Sub { name: "histories-exhaustive-len3", run: |_| {}, replay: |c, v| c.replay_case::<Case>("histories-exhaustive", v, check) },
-        Sub { name: "histories-exhaustive-len4", run: |_| {}, replay: |c, v| c.replay_case::<Case>("histories-exhaustive", v, check) },
-        Sub { name: "histories-exhaustive-len5", run: |_| {}, replay: |c, v| c.replay_case::<Case>("histories-exhaustive", v, check) },
+        Sub { name: "histories-random", run: run_random, replay: |c, v| c.replay_case::<Case>("histories-random", v, |k, o| p_stack::replay_repeated(k, o, check)) },
+        Sub { name: "histories-exhaustive-len1", run: run_exhaustive, replay: |c, v| c.replay_case::<Case>("histories-exhaustive", v, |k, o| p_stack::replay_repeated(k, o, check)) },
+        Sub { name: "histories-exhaustive-len2", run: |_| {}, replay: |c, v| c.replay_case::<Case>("histories-exhaustive", v, |k, o| p_stack::replay_repeated(k, o, check)) },
+        Sub { name: "histories-exhaustive-len3", run: |_| {}, replay: |c, v| c.replay_case::<Case>("histories-exhaustive", v, |k, o| p_stack::replay_repeated(k, o, check)) },
+        Sub { name: "histories-exhaustive-len4", run: |_| {}, replay: |c, v| c.replay_case::<Case>("histories-exhaustive", v, |k, o| p_stack::replay_repeated(k, o, check)) },
+        Sub { name: "histories-exhaustive-len5", run: |_| {}, replay: |c, v| c.replay_case::<Case>("histories-exhaustive", v, |k, o| p_stack::replay_repeated(k, o, check)) },
     ];
     vcore::main(
         "C06",
